@@ -53,7 +53,8 @@ def pda_to_one_accepting_state_in_place(P: PDA) -> None:
     Q.add(q_accept)
 
     for q in F:
-        delta[q, epsilon, epsilon].add((q_accept, epsilon))
+        # a new set: the old one may be the value of other transitions as well
+        delta[q, epsilon, epsilon] = delta[q, epsilon, epsilon] | {(q_accept, epsilon)}
 
     F.clear()
     F.add(q_accept)
@@ -84,7 +85,7 @@ def pda_to_accept_on_empty_stack_in_place(P: PDA) -> None:
     q_accept = fresh_state(Q, 'q_accept')
     Q.add(q_accept)
     for q in F:
-        delta[q, epsilon, epsilon].add((q_drain, epsilon))
+        delta[q, epsilon, epsilon] = delta[q, epsilon, epsilon] | {(q_drain, epsilon)}
     for u in Gamma - {stack_bottom}:
         delta[q_drain, epsilon, u].add((q_drain, epsilon))
     delta[q_drain, epsilon, stack_bottom].add((q_accept, epsilon))
